@@ -188,7 +188,13 @@ NextGhost(g, e, st0, st1, v0s, v1s) ==
       eidsNow(st, u) == UNION {DOMAIN st.sess[s].ents : s \in ByUuid(st, u)}
       aidsNow(st, u) == UNION {{st.sess[s].assets[x].id : x \in DOMAIN st.sess[s].assets} : s \in ByUuid(st, u)}
       newU == us \ us0
+      \* ids ANNOUNCED in this step (the answer to an asset / entity add names the id it issued): they count as issued
+      \* in the session the requester is in afterwards, whether or not the state of that session shows them
+      actorU == IF e.conn \in Conns /\ st1.conns[e.conn].sid \in DOMAIN st1.sess THEN {st1.sess[st1.conns[e.conn].sid].uuid} ELSE {}
+      saidA  == IF e.conn \in Conns THEN {e.out[e.conn][i].aid : i \in {j \in DOMAIN e.out[e.conn] : e.out[e.conn][j].t = "ASSET_ADD_RESPONSE"}} ELSE {}
+      saidE  == IF e.conn \in Conns THEN {e.out[e.conn][i].eid : i \in {j \in DOMAIN e.out[e.conn] : e.out[e.conn][j].t = "ENTITY_ADD_RESPONSE"}} ELSE {}
       fresh == /\ newU \cap g.uuids = {}
+               /\ \A u \in actorU : saidA \cap GetOr(g.aids, u, {}) = {} /\ saidE \cap GetOr(g.eids, u, {}) = {}
                /\ \A u \in us : /\ (pidsNow(st1, u) \ pidsNow(st0, u)) \cap GetOr(g.pids, u, {}) = {}
                                 /\ (eidsNow(st1, u) \ eidsNow(st0, u)) \cap GetOr(g.eids, u, {}) = {}
                                 /\ (aidsNow(st1, u) \ aidsNow(st0, u)) \cap GetOr(g.aids, u, {}) = {}
@@ -205,8 +211,8 @@ NextGhost(g, e, st0, st1, v0s, v1s) ==
                            ELSE old[x]]]
   IN [ uuids |-> g.uuids \cup us,
        pids  |-> [u \in (DOMAIN g.pids) \cup us |-> GetOr(g.pids, u, {}) \cup pidsNow(st1, u)],
-       eids  |-> [u \in (DOMAIN g.eids) \cup us |-> GetOr(g.eids, u, {}) \cup eidsNow(st1, u)],
-       aids  |-> [u \in (DOMAIN g.aids) \cup us |-> GetOr(g.aids, u, {}) \cup aidsNow(st1, u)],
+       eids  |-> [u \in (DOMAIN g.eids) \cup us |-> GetOr(g.eids, u, {}) \cup eidsNow(st1, u) \cup (IF u \in actorU THEN saidE ELSE {})],
+       aids  |-> [u \in (DOMAIN g.aids) \cup us |-> GetOr(g.aids, u, {}) \cup aidsNow(st1, u) \cup (IF u \in actorU THEN saidA ELSE {})],
        fresh |-> fresh,
        lastPose |-> lp1,
        \* per observer: the entities whose deletion it has been told about (relay, or the answer to its own request)
